@@ -195,17 +195,17 @@ theorem specMeanRows_sound (recs : List RowQ) (t : Nat) (names : List String) :
     rw [if_neg he]
     exact this
 
-/-- **spec_sound (estimate with a genotype matrix)**: the model's `meanBV` output, labelled with the genotype matrix' labels
+/-- **spec_sound (estimate with a genotype matrix)**: the model's `meanBVPrerepair` output, labelled with the genotype matrix' labels
     and the trait list, passes `specMeanBV` — for every table in which a name is not used under two group labels (any
     table when `taxa_grp_col` is not set), every genotype taxa list. -/
 theorem specMeanBV_sound (useGrp : Bool) (recs : List RowQ) (hk : KeyByName useGrp recs) (t : Nat) (gtTaxa : List String)
     (gtGrp : Option (List Int)) (traits : List String) :
     specMeanBV recs t gtTaxa gtGrp traits gtTaxa gtGrp traits
-      ((meanBV keyLe useGrp t recs gtTaxa).map (bvRowOut t)) = true := by
+      ((meanBVPrerepair keyLe useGrp t recs gtTaxa).map (bvRowOut t)) = true := by
   unfold specMeanBV
-  have hrows : (meanBV keyLe useGrp t recs gtTaxa).map (bvRowOut t) =
+  have hrows : (meanBVPrerepair keyLe useGrp t recs gtTaxa).map (bvRowOut t) =
       gtTaxa.map (fun nm => bvRowOut t (meanOrMissing t recs nm)) := by
-    unfold meanBV
+    unfold meanBVPrerepair
     rw [List.map_map]
     apply List.map_congr_left
     intro nm _
@@ -286,7 +286,7 @@ theorem specMeanRowsNan_sound (recs : List RowN) (t : Nat) (names : List String)
 /-- **spec_sound (estimate with a genotype matrix, NaN cells)** -/
 theorem specMeanBVNan_sound (useGrp : Bool) (recs : List RowN) (hk : KeyByName useGrp recs) (t : Nat) (gtTaxa : List String)
     (gtGrp : Option (List Int)) (traits : List String) :
-    specMeanBVNan recs t gtTaxa gtGrp traits gtTaxa gtGrp traits (meanBVNan keyLe useGrp t recs gtTaxa) = true := by
+    specMeanBVNan recs t gtTaxa gtGrp traits gtTaxa gtGrp traits (meanBVNanPrerepair keyLe useGrp t recs gtTaxa) = true := by
   unfold specMeanBVNan
   rw [meanBVNan_eq keyLe useGrp t recs hk gtTaxa, specMeanRowsNan_sound]
   simp
